@@ -14,8 +14,10 @@ import (
 	"encoding/hex"
 	"errors"
 	"fmt"
+	"os"
 	"strings"
 	"sync"
+	"sync/atomic"
 	"time"
 
 	"github.com/klev-dev/klevdb"
@@ -272,5 +274,205 @@ func genBlocking(w *bufio.Writer, root string, seed uint64, n, ops int) {
 		c.settle()
 		run.main.log = nil
 		run.Reset()
+	}
+}
+
+// The `bstorm` profile (C18, free-running part): waiters, publishers and cancellations run at
+// the same time on the real BlockingLog with no control over the schedule; what every waiter
+// returned is recorded together with the phase in which it returned: while publishers were
+// running, after everything had settled, or after Close.
+func genBlockStorm(w *bufio.Writer, root string, seed uint64, n, ops int) {
+	master := &rng{s: seed}
+	if ops < 4 {
+		ops = 20
+	}
+	for h := 0; h < n; h++ {
+		r := &rng{s: master.next()}
+		dir := fmt.Sprintf("%s/bs%d", root, h)
+		fmt.Fprintf(w, "# hist %d seed=%d flavor=bstorm\n", h, seed)
+		blk, err := klevdb.OpenBlocking(dir, klevdb.Options{CreateDirs: true, KeyIndex: true, Rollover: r.pick([]int64{200, 1000, 1 << 20})})
+		if err != nil {
+			fmt.Fprintf(w, "bs.open => %s\n", errRes(err))
+			continue
+		}
+		// some content first
+		pre := r.intn(4)
+		var next int64
+		var preLines []string
+		for i := 0; i < pre; i++ {
+			m := []klevdb.Message{{Key: []byte("p"), Value: []byte{byte(i)}, Time: time.UnixMicro(int64(1000 + i)).UTC()}}
+			next, _ = blk.Publish(m)
+			preLines = append(preLines, fmt.Sprintf("bs.pub %s => ok %d", fmtMsg(m[0]), next))
+		}
+		fmt.Fprintf(w, "bs.open pre=%d => ok %d\n", pre, next)
+		for _, l := range preLines {
+			fmt.Fprintln(w, l)
+		}
+		nPub := 1 + r.intn(3)
+		perPub := 1 + r.intn(ops)
+		total := next + int64(nPub*perPub)
+		type wt struct {
+			off, max int64
+			key      []byte
+			cancel   context.CancelFunc
+			mu       sync.Mutex
+			res      string
+			phase    string
+			canc     bool
+		}
+		var phase atomic.Value
+		phase.Store("running")
+		nW := 2 + r.intn(7)
+		ws := make([]*wt, nW)
+		var wg sync.WaitGroup
+		for i := range ws {
+			x := &wt{max: int64(1 + r.intn(4))}
+			switch r.intn(6) {
+			case 0:
+				x.off = klevdb.OffsetOldest
+			case 1:
+				x.off = int64(r.intn(int(next) + 1))
+			case 2, 3:
+				x.off = next + int64(r.intn(int(total-next)+1))
+			case 4:
+				x.off = total // only Close or a cancellation ends this one
+			default:
+				x.off = total + 1 + int64(r.intn(3))
+			}
+			if r.chance(30) {
+				x.key = []byte("k")
+			}
+			ws[i] = x
+			ctx, cancel := context.WithCancel(context.Background())
+			x.cancel = cancel
+			wg.Add(1)
+			go func() {
+				defer wg.Done()
+				var nxt int64
+				var ms []klevdb.Message
+				var err error
+				if x.key != nil {
+					nxt, ms, err = blk.ConsumeByKeyBlocking(ctx, x.key, x.off, x.max)
+				} else {
+					nxt, ms, err = blk.ConsumeBlocking(ctx, x.off, x.max)
+				}
+				res := ""
+				if err != nil {
+					res = blockingErr(err)
+				} else {
+					res = fmt.Sprintf("ok %d %s", nxt, fmtMsgs(ms))
+				}
+				x.mu.Lock()
+				x.res, x.phase = res, phase.Load().(string)
+				x.mu.Unlock()
+			}()
+		}
+		// publishers
+		var pubMu sync.Mutex
+		var pubLines []string
+		var pwg sync.WaitGroup
+		var tclock atomic.Int64
+		tclock.Store(2000)
+		for p := 0; p < nPub; p++ {
+			pr := &rng{s: r.next()}
+			pwg.Add(1)
+			go func() {
+				defer pwg.Done()
+				for i := 0; i < perPub; i++ {
+					key := "j"
+					if pr.chance(40) {
+						key = "k"
+					}
+					m := []klevdb.Message{{Key: []byte(key), Value: randBytes(pr, 1+pr.intn(12)), Time: time.UnixMicro(tclock.Add(1)).UTC()}}
+					nx, err := blk.Publish(m)
+					line := ""
+					if err != nil {
+						line = fmt.Sprintf("bs.pub => %s", errRes(err))
+					} else {
+						line = fmt.Sprintf("bs.pub %s => ok %d", fmtMsg(m[0]), nx)
+					}
+					pubMu.Lock()
+					pubLines = append(pubLines, line)
+					pubMu.Unlock()
+					if pr.chance(30) {
+						time.Sleep(time.Duration(pr.intn(200)) * time.Microsecond)
+					}
+				}
+			}()
+		}
+		// a cancellation or two while things run
+		for i := 0; i < r.intn(3); i++ {
+			x := ws[r.intn(len(ws))]
+			x.mu.Lock()
+			x.canc = true
+			x.mu.Unlock()
+			x.cancel()
+		}
+		pwg.Wait()
+		// settle: every waiter whose offset was passed has to come back by itself (up to 3 s each before it is reported)
+		deadline := time.Now().Add(3 * time.Second)
+		for time.Now().Before(deadline) {
+			due := false
+			for _, x := range ws {
+				x.mu.Lock()
+				if x.res == "" && (x.off < total || x.canc) {
+					due = true
+				}
+				x.mu.Unlock()
+			}
+			if !due {
+				break
+			}
+			time.Sleep(200 * time.Microsecond)
+		}
+		time.Sleep(2 * time.Millisecond)
+		phase.Store("settled")
+		var st []string
+		for i, x := range ws {
+			x.mu.Lock()
+			if x.res == "" {
+				st = append(st, fmt.Sprintf("%d:blocked", i))
+			} else {
+				st = append(st, fmt.Sprintf("%d:done", i))
+			}
+			x.mu.Unlock()
+		}
+		phase.Store("closed")
+		cerr := blk.Close()
+		done := make(chan struct{})
+		go func() { wg.Wait(); close(done) }()
+		hung := false
+		select {
+		case <-done:
+		case <-time.After(5 * time.Second):
+			hung = true
+		}
+		for _, l := range pubLines {
+			fmt.Fprintln(w, l)
+		}
+		fmt.Fprintf(w, "bs.settled total=%d => ok %s\n", total, strings.Join(st, " "))
+		for i, x := range ws {
+			x.mu.Lock()
+			res, ph := x.res, x.phase
+			if res == "" {
+				res, ph = "blocked", "never"
+			}
+			kind := "cons"
+			if x.key != nil {
+				kind = "cbk"
+			}
+			fmt.Fprintf(w, "bs.ret %d %s off=%d max=%d canc=%d phase=%s => %s\n", i, kind, x.off, x.max, b2i(x.canc), ph, res)
+			x.mu.Unlock()
+		}
+		fmt.Fprintf(w, "bs.close hung=%d => %s\n", b2i(hung), func() string {
+			if cerr != nil {
+				return errRes(cerr)
+			}
+			return "ok"
+		}())
+		for _, x := range ws {
+			x.cancel()
+		}
+		_ = os.RemoveAll(dir)
 	}
 }
